@@ -121,10 +121,10 @@ def run(res, ctx):
         for r in corecheck.run_cases(ctx, cases, render=True):
             st["evaluations"] += 1
             # "flagged by the report as potentially over-applied": the [1] marker and its legend
-            rstat, probs = renderoracle.check_run(r, groups=("over",))
+            rstat, probs = renderoracle.check_run(r, groups=("over", "acb"))
             st["report-" + rstat] += 1
             if probs and rstat == "ok":
-                res.violation("failing-input", "the report's over-applied flag does not match the ledger: " + probs[0][1],
+                res.violation("failing-input", "the report's cost base / gain / over-applied flag does not match the ledger: " + probs[0][1],
                               {"input": r["hc"], "problems": [m_ for _, m_ in probs[:5]]})
             d = core.diff_exact(r["dec"], r["impl"])
             if d is not None:
